@@ -351,6 +351,30 @@ def native_buffered_include(w=None):
     return (bool(problems), "; ".join(problems[:2]) or "includes inside buffered frames write into the buffer")
 
 
+def native_include_rerenders(w=None):
+    """an include without context renders the target each time (current globals visible), it does not replay an earlier render"""
+    problems = []
+    for is_async in (False, True):
+        n = [0]
+
+        def counter():
+            n[0] += 1
+            return n[0]
+
+        env = _env({"noctx": "{% include 'inc' without context %}", "inc": "[{{ g }}]", "cnt": "<{{ counter() }}>",
+                    "cnt2": "{% include 'cnt' without context %}{% include 'cnt' without context %}"}, is_async)
+        env.globals.update(g="old", counter=counter)
+        first = _render(env, "noctx")
+        env.globals["g"] = "new"
+        second = _render(env, "noctx")
+        if (first, second) != ("[old]", "[new]"):
+            problems.append(f"async={is_async}: include without context after env.globals['g'] changed from 'old' to 'new': {first!r} then {second!r}")
+        got = _render(env, "cnt2")
+        if got != "<1><2>":
+            problems.append(f"async={is_async}: two includes without context of '<{{{{ counter() }}}}>' rendered {got!r}, expected '<1><2>'")
+    return (bool(problems), "; ".join(problems[:2]) or "includes without context render the target each time")
+
+
 def native_all(w=None):
     v, d = native_context(w)
     if v:
@@ -1391,6 +1415,16 @@ def include_pred(func):
                     c = c.value if isinstance(c, ast.Await) else None
                 return isinstance(c, ast.Call) and emit.call_name(c) == mod_call and not c.args and not c.keywords
 
+            # "an include renders the target": every execution of the statement renders it anew, in a context of its own that holds the
+            # globals only - gen = template.root_render_func(template.new_context()) + the stream loop
+            a0 = render[0] if render else None
+            if (isinstance(a0, ast.Assign) and is_name(a0.targets[0], "gen") and isinstance(a0.value, ast.Call) and emit.call_name(a0.value) == "template.root_render_func"
+                    and len(a0.value.args) == 1 and isinstance(a0.value.args[0], ast.Call) and emit.call_name(a0.value.args[0]) == "template.new_context"
+                    and not a0.value.args[0].args and not a0.value.args[0].keywords):
+                r = stream_loop(render, is_async, sc.buffer, "gen", "included stream")
+                return fails + ([r] if r else [])
+            fails.append("[replays-cached-default-module] without context the target is not rendered: the statement passes on the body stream stored in the target's "
+                         "cached default module (Template._module) - output of an earlier render, stale when a global changed, a counter global advances once")
             s = render[0] if len(render) == 1 else None
             if isinstance(s, ast.Expr) and isinstance(s.value, ast.YieldFrom):
                 if sc.buffer is not None:
@@ -1435,8 +1469,15 @@ class IncludeTask(EmitTask):
 
     def finding_key(self, res):
         w = res.witness or {}
-        cat = "yield-into-buffered-frame" if "although the frame collects its output" in (res.detail or "") else "other"
+        d = res.detail or ""
+        cat = "yield-into-buffered-frame" if "although the frame collects its output" in d else "other"
+        if cat == "other" and "[replays-cached-default-module]" in d and d.count("; ") == 0:
+            return "replays-cached-default-module"  # (and nothing else wrong on this path)
         return f"{cat}:buffer={w.get('buffer')}"
+
+    def replay(self, witness):
+        v, d = native_include_rerenders(witness)
+        return (v, d) if v else EmitTask.replay(self, witness)
 
 
 def ref_alias(sc, ident_term):
@@ -2182,3 +2223,90 @@ def native_loop_in_include(w=None):
 
 HUNT_TASKS = [DerivedKeepsGlobals()] + [ForContextTask(k) for k in ForContextTask.shapes]
 TASKS = TASKS + HUNT_TASKS
+
+
+# ================================================================== last hunt round: macro specials for includes / imports with context
+
+class MacroContextTask(Task):
+    """C05.emit.macro.context_sees_specials[<shape>]: the real CodeGenerator.macro_body on a macro without parameters whose body is a
+    concrete small tree containing include / import / from-import statements with a symbolic `with_context` flag.  Obligation: on every
+    path on which the macro does not accept all of varargs, kwargs and caller (MacroRef.accesses_*), every such statement is known to
+    be `without context` - a template included or imported with context is handed the macro's locals and may read the three special
+    variables every macro documents.  (Macro counterpart of C05.emit.for.context_sees_loop.)"""
+    kind = "emission"
+    shapes = {"I": ("I",), "M": ("M",), "F": ("F",), "If[I]": (("If", ("I",)),), "S,I": ("S", "I")}
+
+    def __init__(self, label):
+        self.label, self.shape = label, self.shapes[label]
+        self.prop = "C05"
+        self.name = f"C05.emit.macro.context_sees_specials[{label}]"
+        self.bound_text = "shape bound: macro without parameters, body is this concrete tree (with_context flags, other statements symbolic)"
+
+    def replay(self, w):
+        return native_macro_specials(w)
+
+    def finding_key(self, res):
+        return "context-without-macro-specials" if "[context-without-macro-specials]" in (res.detail or "") else "other"
+
+    def run(self, tier, seed):
+        from contracts.c04 import build_for_body
+        info = {}
+
+        def fields(st):
+            blocks, every = [], []
+            kids = build_for_body(st, self.shape, "node.body", blocks, every)
+            info["every"] = every
+            return {"body": st.alloc(HList(items=kids), initial=True), "args": st.alloc(HList(items=[]), initial=True), "defaults": st.alloc(HList(items=[]), initial=True)}
+
+        def configure(I):
+            def find_all(I_, s, args, kwargs, node):
+                return [(s, tuple(r for r in info["every"] if issubclass(s.get(r).cls, args[1])))]
+            I.specs["Node.find_all"] = find_all
+
+        try:
+            scs, I = emit.run_visitor("jinja2.compiler:CodeGenerator.macro_body", N.Macro, buffer=None, node_fields=fields, configure=configure)
+        except Unsupported as ex:
+            return [Res(self.name + ".engine", "unknown", "pyvc-emit", 0, f"unsupported: {ex}", self.kind)]
+        res = []
+        for i, sc in enumerate(scs):
+            fails = []
+            if sc.outcome == "raise":
+                fails.append(f"macro_body raises {sc.value!r}")
+            else:
+                mref = sc.st.get(sc.value[1]).fields if isinstance(sc.value, tuple) else {}
+                missing_ = [k for k in ("accesses_varargs", "accesses_kwargs", "accesses_caller") if mref.get(k, False) is not True]
+                if missing_:
+                    for r in info["every"]:
+                        h = sc.st.get(r)
+                        if h.cls in (N.Include, N.Import, N.FromImport) and not sc.holds(z3.Not(z3.Bool(h.path + ".with_context"))):
+                            fails.append(f"[context-without-macro-specials] the include / import at {h.path} may be `with context`, but the macro does not accept "
+                                         f"{[m.split('_')[1] for m in missing_]}: the target template is handed the macro's locals and cannot see them "
+                                         f"(calling the macro with extra arguments / a caller fails with TypeError)")
+                            break
+            res.append(Res(f"{self.name}#p{i}", "refuted" if fails else "discharged", "pyvc-emit", 0, "; ".join(fails[:1]), self.kind,
+                           {"shape": self.label} if fails else None))
+        if len(scs) < 4:
+            res.append(Res(self.name + ".paths", "error", "pyvc-emit", 0, f"only {len(scs)} paths", self.kind))
+        return res
+
+
+def native_macro_specials(w=None):
+    problems = []
+    for is_async in (False, True):
+        env = _env({"va": "[{{ varargs|join(',') }}]", "kw": "[{{ kwargs|dictsort|join(',') }}]", "ca": "[{{ caller() }}]"}, is_async)
+        for src, want in (("{% macro m() %}{% include 'va' %}{% endmacro %}{{ m(1, 2) }}", "[1,2]"),
+                          ("{% macro m() %}{% include 'kw' %}{% endmacro %}{{ m(a=1) }}", "[('a', 1)]"),
+                          ("{% macro m() %}{% include 'ca' %}{% endmacro %}{% call m() %}C{% endcall %}", "[C]"),
+                          ("{% macro m() %}{% import 'va' as i with context %}{{ i }}{% endmacro %}{{ m(1, 2) }}", "[1,2]"),
+                          ("{% macro m() %}{{ varargs|length }}{% include 'va' %}{% endmacro %}{{ m(1, 2) }}", "2[1,2]")):
+            try:
+                got = env.from_string(src).render()
+            except Exception as ex:
+                got = type(ex).__name__
+            if got != want:
+                problems.append(f"async={is_async} {src!r}: {got!r}, expected {want!r}")
+    return (bool(problems), "; ".join(problems[:2]) or "templates included in a macro see varargs / kwargs / caller")
+
+
+MACRO_TASKS = [MacroContextTask(k) for k in MacroContextTask.shapes]
+TASKS = TASKS + MACRO_TASKS
